@@ -4,11 +4,21 @@ Implementation under test (real code, in-process, under a controlled os.environ)
   FlowIRConcrete(doc, platform, {}) -> FlowIRExperimentConfiguration(concrete=...) -> WorkflowGraph(...)
   -> WorkflowGraph.environmentForNode('stage0.c')        (conf.py 1163-1383, flowir.py 5502-5590, 1927-1937)
   and FlowIRExperimentConfiguration.environmentWithName(name, expand, remove_defaults_key).
-Model: lean/St4sd/Model/Env.lean via drv-c17.  Theorems: lean/St4sd/Props/C17.lean.
+  Both flavours of the configuration are driven: primitive (reads the package document) and replicated
+  (primitive=False: reads the document FlowIRConcrete.instance(platform) produces, flowir.py 5262-5270 — what
+  every running experiment does).
+  Sessions: ONE configuration/graph object with several components and non-empty system variables serves a random
+  sequence of environmentForNode (graph / componentSpecification.environment / configuration) /
+  environmentWithName / defaultEnvironment calls, the caller rewriting the dictionaries it gets back; every
+  answer is checked against the property oracle, against the answer of a fresh object, and against the model's
+  session (Env.runCalls).
+Model: lean/St4sd/Model/Env.lean via drv-c17.  Theorems: lean/St4sd/Props/C17.lean, Witness/C17.lean.
 """
 from __future__ import annotations
 
+import copy
 import itertools
+import json
 import os
 import string
 
@@ -60,7 +70,7 @@ def random_case(rng, s):
     return "".join(c.upper() if rng.random() < 0.5 else c.lower() for c in s)
 
 
-def gen_case(rng, presence=None, name_kind=None, plat=None, interp=None):
+def gen_case(rng, presence=None, name_kind=None, plat=None, interp=None, primitive=None):
     names = list(VAR_NAMES)
     platforms = ["default"] + rng.choice([[], ["plat"], ["plat", "other"]])
     if plat is None:
@@ -109,8 +119,11 @@ def gen_case(rng, presence=None, name_kind=None, plat=None, interp=None):
         sysv[nm] = rng.choice(["/i/dir", "exp", "", "$A", "s-" + nm])
     if interp is None:
         interp = rng.random() < 0.4
+    if primitive is None:
+        primitive = rng.random() < 0.5
     return {"platforms": platforms, "platform": plat, "envs": envs, "name": name, "launch": launch, "sys": sysv,
-            "interp": interp, "presence": presence, "name_kind": name_kind}
+            "interp": interp, "presence": presence, "name_kind": name_kind, "primitive": primitive,
+            "disk": (not primitive) and rng.random() < 0.25}
 
 
 # ----------------------------------------------------------------------------------------
@@ -143,6 +156,44 @@ def doc_for(case):
     return doc
 
 
+class built:
+    """context manager: the configuration + graph objects for a document, in one of three flavours —
+    primitive (reads the package document), replicated (primitive=False: reads FlowIRConcrete.instance(platform)),
+    or, with disk=True, replicated from an instance directory: the package is written to <dir>/conf, loaded with
+    createInstanceFiles (which stores flowir_instance.yaml) and loaded again with is_instance=True (restart path).
+    Must be entered inside patched_environ."""
+
+    def __init__(self, doc, platform, sysv, primitive, disk):
+        self.args = (doc, platform, sysv, bool(primitive), bool(disk) and not primitive)
+        self.tmp = None
+
+    def __enter__(self):
+        import experiment.model.conf as C
+        import experiment.model.frontends.flowir as F
+        import experiment.model.graph as G
+        doc, platform, sysv, prim, disk = self.args
+        if disk:
+            import tempfile
+            import yaml
+            self.tmp = tempfile.mkdtemp(prefix="c17-")
+            os.makedirs(os.path.join(self.tmp, "conf"))
+            with open(os.path.join(self.tmp, "conf", "flowir_package.yaml"), "w") as fh:
+                yaml.safe_dump(doc, fh)
+            C.FlowIRExperimentConfiguration(self.tmp, platform, None, dict(sysv), False, True, False, validate=False)
+            conf = C.FlowIRExperimentConfiguration(self.tmp, platform, None, dict(sysv), True, False, False,
+                                                   validate=False)
+        else:
+            conc = F.FlowIRConcrete(doc, platform, {})
+            conf = C.FlowIRExperimentConfiguration(None, platform, None, dict(sysv), False, False, prim,
+                                                   concrete=conc, validate=False)
+        return conf, G.WorkflowGraph(conf, platform, prim)
+
+    def __exit__(self, *a):
+        if self.tmp:
+            import shutil
+            shutil.rmtree(self.tmp, ignore_errors=True)
+
+
 def err_kind(exc):
     n = type(exc).__name__
     if n == "FlowIREnvironmentUnknown":
@@ -151,23 +202,18 @@ def err_kind(exc):
 
 
 def impl(case, withname=None):
-    import experiment.model.conf as C
-    import experiment.model.frontends.flowir as F
-    import experiment.model.graph as G
     import logging
     logging.disable(logging.CRITICAL)
     with patched_environ(case["launch"]):
         try:
-            conc = F.FlowIRConcrete(doc_for(case), case["platform"], {})
-            conf = C.FlowIRExperimentConfiguration(None, case["platform"], None, dict(case["sys"]), False, False, True,
-                                                   concrete=conc, validate=False)
-            if withname is not None:
-                env = conf.environmentWithName(case["name"], expand=withname["expand"],
-                                               remove_defaults_key=withname["remove"])
-            else:
-                g = G.WorkflowGraph(conf, case["platform"], True)
-                env = g.environmentForNode("stage0.c")
-            return {"ok": {str(k): str(v) for k, v in env.items()}}
+            with built(doc_for(case), case["platform"], case["sys"], case.get("primitive", True),
+                       case.get("disk", False)) as (conf, g):
+                if withname is not None:
+                    env = conf.environmentWithName(case["name"], expand=withname["expand"],
+                                                   remove_defaults_key=withname["remove"])
+                else:
+                    env = g.environmentForNode("stage0.c")
+                return {"ok": {str(k): str(v) for k, v in env.items()}}
         except Exception as exc:  # noqa
             return {"error": err_kind(exc)}
 
@@ -181,7 +227,8 @@ def model_request(case, withname=None):
            "sys": pairs(case["sys"]),
            "envs": [[p, [[n, pairs(d)] for n, d in e.items()]] for p, e in case["envs"].items()],
            "platform": case["platform"], "launch": pairs(case["launch"]), "name": case["name"],
-           "interp": case["interp"]}
+           "interp": case["interp"], "primitive": bool(case.get("primitive", True)),
+           "reload": bool(case.get("disk", False)) and not case.get("primitive", True)}
     if withname is not None:
         req.update(withname)
     return req
@@ -241,7 +288,9 @@ def expand_with(value, first, second):
         return os.path.expandvars(s)
 
 
-def oracle(case, out):
+def oracle(case, out, expand=True, remove=True):
+    """`out` = what the code answered for `case` (environmentForNode, or environmentWithName(name, expand, remove)
+    with case["interp"] False).  For expand=False only the sources of the variables are judged."""
     err, sel, fallback = declared_sources(case)
     if err is not None:
         if out.get("error") != err:
@@ -261,7 +310,7 @@ def oracle(case, out):
     extra = sorted(k for k in env if k not in allowed)
     if extra:
         return "variable-from-undeclared-source", {"keys": extra}
-    if "DEFAULTS" in env and "DEFAULTS" not in [n for n in imports if n in launch]:
+    if remove and "DEFAULTS" in env and "DEFAULTS" not in [n for n in imports if n in launch]:
         return "defaults-key-not-removed", None
     # values: declared text (imports merged) expanded from the environment itself, then from the launch env
     pre = dict(declared)
@@ -271,12 +320,14 @@ def oracle(case, out):
                 pre[n] = string.Template(pre[n]).safe_substitute({n: launch[n]})
             else:
                 pre[n] = launch[n]
-    if "DEFAULTS" in declared:
+    if "DEFAULTS" in declared and remove:
         pre.pop("DEFAULTS", None)
     # every declared variable with a non-empty value is present (an empty one may be dropped, as coded)
     missing = sorted(k for k, v in pre.items() if v != "" and k not in env)
     if missing:
         return "declared-variable-missing", {"keys": missing}
+    if not expand:
+        return None, None
     for k, v in env.items():
         if k in pre and pre[k] != "":
             exp = expand_with(pre[k], pre, launch)
@@ -297,6 +348,284 @@ def oracle(case, out):
         if not mentioned and any(launch[CANARY] in v for v in env.values()):
             return "launch-variable-leaks-into-values", None
     return None, None
+
+
+# ----------------------------------------------------------------------------------------
+# sessions: one configuration object, many calls
+# ----------------------------------------------------------------------------------------
+
+ENV_POOL = ["myenv", "my-env2", "e", "environment"]
+MUTATIONS = ["add", "overwrite", "clear", "defaults"]
+
+
+def gen_session(rng, primitive=None):
+    names = list(VAR_NAMES)
+    platforms = ["default"] + rng.choice([[], ["plat"], ["plat", "other"]])
+    plat = rng.choice(platforms)
+    envs = {p: {} for p in platforms}
+
+    def mk_env():
+        d = gen_dict(rng, names, 0, 5, raw=True)
+        if rng.random() < 0.4:
+            d["DEFAULTS"] = ":".join(rng.sample(names + ["UNDEF", "", CANARY], rng.randint(0, 4)))
+        return d
+
+    for n in ENV_POOL:
+        where = rng.choice(["default", "platform", "both", "neither"])
+        if n == "environment" and rng.random() < 0.4:
+            where = "neither"      # the package defines no default environment: the launch environment is used
+        if where in ("default", "both"):
+            envs["default"][random_case(rng, n) if rng.random() < 0.3 else n] = mk_env()
+        if where in ("platform", "both") and plat != "default":
+            envs[plat][random_case(rng, n) if rng.random() < 0.3 else n] = mk_env()
+        for p in platforms:
+            if p not in ("default", plat) and rng.random() < 0.3:
+                envs[p][n] = mk_env()
+
+    def pick_name():
+        k = rng.random()
+        if k < 0.22:
+            return rng.choice([None, "", "environment", random_case(rng, "environment")])
+        if k < 0.42:
+            return rng.choice(["none", "NONE", "None", "nOnE"])
+        if k < 0.92:
+            n = rng.choice(ENV_POOL[:3])
+            return n if rng.random() < 0.7 else random_case(rng, n)
+        return "nosuchenv"
+
+    comps = [{"env": pick_name(), "interp": rng.random() < 0.35} for _ in range(rng.randint(2, 4))]
+    launch = {k: ("" if v is None else str(v)) for k, v in gen_dict(rng, names, 1, 7).items()}
+    launch[CANARY] = "canary-" + str(rng.randint(0, 9))
+    # system variables are never empty here: an experiment instance always has INSTANCE_DIR & co
+    sysv = {}
+    for nm in rng.sample(SYS_NAMES, rng.randint(1, 4)):
+        sysv[nm] = rng.choice(["/i/dir", "exp", "$A", "s-" + nm, "run-1"])
+    calls = []
+    for _ in range(rng.randint(2, 7)):
+        k = rng.random()
+        if k < 0.55:
+            call = {"op": "node", "comp": rng.randrange(len(comps)), "via": rng.choice(["graph", "spec", "conf"])}
+        elif k < 0.85:
+            call = {"op": "withname", "name": pick_name(), "expand": rng.random() < 0.7, "remove": rng.random() < 0.7}
+        else:
+            call = {"op": "default"}
+        if rng.random() < 0.4:
+            call["mutate"] = rng.choice(MUTATIONS)
+        calls.append(call)
+        if "mutate" in call and rng.random() < 0.7:
+            again = dict(call)
+            again.pop("mutate")
+            calls.append(again)
+    if primitive is None:
+        primitive = rng.random() < 0.5
+    return {"session": {"platforms": platforms, "platform": plat, "envs": envs, "launch": launch, "sys": sysv,
+                        "primitive": primitive, "disk": (not primitive) and rng.random() < 0.25,
+                        "comps": comps, "calls": calls}}
+
+
+def session_doc(sess):
+    comps = []
+    for i, c in enumerate(sess["comps"]):
+        cmd = {"executable": "ls"}
+        if c["env"] is not None:
+            cmd["environment"] = c["env"]
+        if c["interp"]:
+            cmd["interpreter"] = "bash"
+        comps.append({"name": "c%d" % i, "stage": 0, "command": cmd})
+    return {"components": comps, "platforms": list(sess["platforms"]),
+            "environments": {p: {n: dict(d) for n, d in e.items()} for p, e in sess["envs"].items()}}
+
+
+def mutation_edits(kind):
+    return {"add": {"INJECTED_BY_CALLER": "1", "A": "caller"}, "defaults": {"DEFAULTS": CANARY + ":A:PATH"}}.get(kind, {})
+
+
+def mutate_in_place(d, kind):
+    """the caller owns the dictionary it was handed and rewrites it"""
+    if kind == "overwrite":
+        for k in list(d.keys()):
+            d[k] = "overwritten-by-caller"
+    elif kind == "clear":
+        d.clear()
+    else:
+        d.update(mutation_edits(kind))
+
+
+def run_session_impl(sess, calls=None):
+    """serve `calls` (default: the session's) one after the other on ONE configuration/graph object; returns the
+    list of answers ({"ok": {...}} | {"error": kind}), or {"construct": kind} when the object cannot be built"""
+    import logging
+    logging.disable(logging.CRITICAL)
+    calls = sess["calls"] if calls is None else calls
+    answers = []
+    with patched_environ(sess["launch"]):
+        b = built(session_doc(sess), sess["platform"], sess["sys"], sess.get("primitive", True),
+                  sess.get("disk", False))
+        try:
+            conf, g = b.__enter__()
+        except Exception as exc:  # noqa
+            b.__exit__()
+            return {"construct": "other:" + type(exc).__name__}
+        for call in calls:
+            env = None
+            try:
+                if call["op"] == "node":
+                    node = "stage0.c%d" % call["comp"]
+                    if call["via"] == "graph":
+                        env = g.environmentForNode(node)
+                    elif call["via"] == "spec":
+                        env = g.graph.nodes[node]["componentSpecification"].environment
+                    else:
+                        env = conf.environmentForNode(node)
+                elif call["op"] == "withname":
+                    env = conf.environmentWithName(call["name"], expand=call["expand"],
+                                                   remove_defaults_key=call["remove"])
+                else:
+                    env = conf.defaultEnvironment()
+                answers.append({"ok": {str(k): str(v) for k, v in env.items()}})
+            except Exception as exc:  # noqa
+                answers.append({"error": err_kind(exc)})
+            if env is not None and call.get("mutate"):
+                try:
+                    mutate_in_place(env, call["mutate"])
+                except Exception:  # noqa
+                    pass
+        b.__exit__()
+    return answers
+
+
+def call_case(sess, call):
+    """the single-call case (input of `oracle`) a call of a session corresponds to"""
+    base = {k: sess[k] for k in ("platforms", "platform", "envs", "launch", "sys")}
+    base["primitive"] = bool(sess.get("primitive", True))
+    base["disk"] = bool(sess.get("disk", False))
+    if call["op"] == "node":
+        c = sess["comps"][call["comp"]]
+        base.update(name=c["env"], interp=c["interp"])
+    elif call["op"] == "withname":
+        base.update(name=call["name"], interp=False)
+    else:
+        base.update(name=None, interp=False)
+    return base
+
+
+def oracle_default(sess, out):
+    """defaultEnvironment(): 'the package's default environment (or the launch environment if the package defines
+    none)' — exactly that, nothing of the system variables or of other environments"""
+    err, sel, fallback = declared_sources(call_case(sess, {"op": "default"}))
+    if "error" in out:
+        return "default-environment-raises", {"got": out["error"]}
+    if out["ok"] != sel:
+        return "default-environment-differs-from-declared", {"expected": sel, "got": out["ok"]}
+    return None, None
+
+
+def flavour(c):
+    if c.get("primitive", True):
+        return "primitive"
+    return "instance-directory" if c.get("disk") else "replicated"
+
+
+def bare_call(call):
+    return {k: v for k, v in call.items() if k != "mutate"}
+
+
+def eval_session(sess):
+    """(answers, failures): failures = [(slug, detail)] of the property oracle over every call of the session"""
+    answers = run_session_impl(sess)
+    fails = []
+    if isinstance(answers, dict):
+        # the object itself cannot be built: not an environment question; a fresh object must behave the same
+        return answers, fails
+    fresh_memo = {}
+    for i, (call, out) in enumerate(zip(sess["calls"], answers)):
+        if call["op"] == "default":
+            why, detail = oracle_default(sess, out)
+        elif call["op"] == "withname":
+            why, detail = oracle(call_case(sess, call), out, expand=call["expand"], remove=call["remove"])
+        else:
+            why, detail = oracle(call_case(sess, call), out)
+        if why:
+            fails.append((why, {"call_index": i, "call": call, "impl": out, "detail": detail}))
+        # construction is a function of the declared sources: the same call on a fresh object answers the same
+        key = json.dumps(bare_call(call), sort_keys=True)
+        if key not in fresh_memo:
+            fr = run_session_impl(sess, [bare_call(call)])
+            fresh_memo[key] = fr[0] if isinstance(fr, list) else fr
+        if out != fresh_memo[key]:
+            fails.append(("environment-depends-on-earlier-calls",
+                          {"call_index": i, "call": call, "in_session": out, "fresh_object": fresh_memo[key]}))
+    return answers, fails
+
+
+def session_request(sess):
+    calls = []
+    for call in sess["calls"]:
+        if call["op"] == "node":
+            c = sess["comps"][call["comp"]]
+            calls.append({"op": "node", "name": c["env"], "interp": c["interp"]})
+        elif call["op"] == "withname":
+            calls.append({"op": "withname", "name": call["name"], "expand": call["expand"], "remove": call["remove"]})
+        else:
+            calls.append({"op": "default"})
+        if call.get("mutate"):
+            calls.append({"op": "mutate", "edits": pairs(mutation_edits(call["mutate"]))})
+    return {"op": "session", "sys": pairs(sess["sys"]),
+            "envs": [[p, [[n, pairs(d)] for n, d in e.items()]] for p, e in sess["envs"].items()],
+            "platform": sess["platform"], "launch": pairs(sess["launch"]),
+            "primitive": bool(sess.get("primitive", True)),
+            "reload": bool(sess.get("disk", False)) and not sess.get("primitive", True), "calls": calls}
+
+
+def session_nontrivial(sess):
+    ops = {(c["op"], c.get("comp"), c.get("name")) for c in sess["calls"]}
+    return len(sess["calls"]) >= 2 and len(ops) >= 2 and len(sess["sys"]) >= 1
+
+
+def check_sessions(ctx, cases):
+    mo = ctx.model([session_request(c["session"]) for c in cases])
+    for i, case in enumerate(cases):
+        sess = case["session"]
+        answers, fails = eval_session(sess)
+        tags = ["session", "session-flavour:" + flavour(sess),
+                "session-platform:" + ("default" if sess["platform"] == "default" else "other")]
+        tags += sorted({"call:" + c["op"] + (":" + c["via"] if c["op"] == "node" else "") for c in sess["calls"]})
+        tags += sorted({"mutate:" + c["mutate"] for c in sess["calls"] if c.get("mutate")})
+        if isinstance(answers, dict):
+            tags.append("session-construct-error")
+        ctx.case(case, nontrivial=session_nontrivial(sess), tags=tags)
+        for why, detail in fails:
+            ctx.fail(why, case, detail)
+        if mo is not None and not isinstance(answers, dict):
+            model_answers = [a for a in mo[i]["answers"] if a is not None]
+            ctx.compare("answers of a session on one configuration object == Env.runCalls",
+                        case, [canon_out(a) for a in model_answers], [canon_out(a) for a in answers])
+
+
+def shrink_case(what, case):
+    """sessions: drop calls, then components' irrelevant parts stay (ddmin over the call list)"""
+    if "session" not in case:
+        return None
+    from harness.common import shrink_list
+    sess = case["session"]
+
+    def still_fails(calls):
+        if not calls:
+            return False
+        s2 = dict(sess, calls=list(calls))
+        return any(w == what for w, _ in eval_session(s2)[1])
+
+    calls = shrink_list(sess["calls"], still_fails, max_steps=60)
+    small = dict(sess, calls=calls)
+
+    def still_fails_env(names):
+        s3 = dict(small, envs={p: {n: d for n, d in e.items() if [p, n] in names} for p, e in small["envs"].items()})
+        return any(w == what for w, _ in eval_session(s3)[1])
+
+    allnames = [[p, n] for p, e in small["envs"].items() for n in e]
+    keep = shrink_list(allnames, still_fails_env, max_steps=40)
+    small = dict(small, envs={p: {n: d for n, d in e.items() if [p, n] in keep} for p, e in small["envs"].items()})
+    return {"session": small}
 
 
 def classify_none(what, case, detail):
@@ -356,7 +685,8 @@ def check_cases(ctx, cases):
         out = canon_out(raw)
         tags = ["presence:" + c["presence"], "name:" + c["name_kind"],
                 "platform:" + ("default" if c["platform"] == "default" else "other"),
-                "interp:%s" % c["interp"], "impl:" + ("error:" + out["error"] if "error" in out else "ok")]
+                "interp:%s" % c["interp"], "impl:" + ("error:" + out["error"] if "error" in out else "ok"),
+                "flavour:" + flavour(c)]
         if any("DEFAULTS" in d for e in c["envs"].values() for d in e.values()):
             tags.append("has-DEFAULTS")
         ctx.case(c, nontrivial=nontrivial(c), tags=tags)
@@ -380,7 +710,47 @@ CORPUS = [
               "plat": {"myenv": {"A": "2", "C": "${LAUNCH}"}}},
      "name": "MYENV", "launch": {"PATH": "/bin", "FOO": "foo", "LAUNCH": "LL", CANARY: "canary-1"},
      "sys": {"INSTANCE_DIR": "/i"}, "interp": True, "presence": "both", "name_kind": "named-case"},
+    # Witness/C17.lean: the replicated configuration (instance document of platform hpc) must keep the variable
+    # that only the default platform declares (fixes/C17-instance-environment-layering.diff)
+    {"platforms": ["default", "hpc"], "platform": "hpc",
+     "envs": {"default": {"myenv": {"A": "a", "B": "b"}}, "hpc": {"myenv": {"B": "b2"}}},
+     "name": "myenv", "launch": {"HOME": "/root", CANARY: "canary-2"}, "sys": {"INSTANCE_DIR": "/i"}, "interp": False,
+     "presence": "both", "name_kind": "named", "primitive": False},
 ]
+CORPUS.append(dict(CORPUS[-1], disk=True))
+
+SESSION_CORPUS = [
+    # every kind of source once, twice, in both orders, on one object; the caller rewrites what it gets
+    {"session": {"platforms": ["default", "hpc"], "platform": "hpc",
+                 "envs": {"default": {"tools": {"TOOL_HOME": "/opt/tool", "DEFAULTS": "PATH", "PATH": "/t/bin:$PATH"},
+                                      "environment": {"FROM_DEFAULT_ENV": "d", "DEFAULTS": "HOME"}},
+                          "hpc": {"tools": {"TOOL_HOME": "/hpc/tool"}}},
+                 "launch": {"PATH": "/bin", "HOME": "/root", CANARY: "canary-3"},
+                 "sys": {"INSTANCE_DIR": "/i/dir", "FLOW_EXPERIMENT_NAME": "exp", "FLOW_RUN_ID": "run-1"},
+                 "primitive": False,
+                 "comps": [{"env": None, "interp": False}, {"env": "none", "interp": False},
+                           {"env": "Tools", "interp": True}],
+                 "calls": [{"op": "node", "comp": 1, "via": "spec"}, {"op": "node", "comp": 2, "via": "spec"},
+                           {"op": "node", "comp": 0, "via": "spec", "mutate": "add"},
+                           {"op": "node", "comp": 1, "via": "spec", "mutate": "defaults"},
+                           {"op": "node", "comp": 2, "via": "graph", "mutate": "clear"},
+                           {"op": "default", "mutate": "overwrite"},
+                           {"op": "withname", "name": "tools", "expand": False, "remove": False, "mutate": "add"},
+                           {"op": "node", "comp": 0, "via": "conf"}, {"op": "node", "comp": 1, "via": "conf"},
+                           {"op": "node", "comp": 2, "via": "conf"}, {"op": "default"}]}},
+]
+for _prim, _envs in ((True, {"default": {"tools": {"TOOL_HOME": "/opt/tool"}}}),
+                     (False, {"default": {"tools": {"TOOL_HOME": "/opt/tool"}}})):
+    # a package without default environment: the default environment is the launch environment
+    SESSION_CORPUS.append({"session": {
+        "platforms": ["default"], "platform": "default", "envs": _envs,
+        "launch": {"PATH": "/bin", "HOME": "/root", CANARY: "canary-4"},
+        "sys": {"INSTANCE_DIR": "/i/dir", "FLOW_EXPERIMENT_NAME": "exp"}, "primitive": _prim,
+        "comps": [{"env": None, "interp": False}, {"env": "none", "interp": False}, {"env": "tools", "interp": False}],
+        "calls": [{"op": "node", "comp": 0, "via": "graph"}, {"op": "node", "comp": 1, "via": "graph"},
+                  {"op": "node", "comp": 2, "via": "graph"}, {"op": "withname", "name": "NONE", "expand": True,
+                                                              "remove": True}]}})
+SESSION_CORPUS.append({"session": dict(SESSION_CORPUS[0]["session"], disk=True)})
 
 
 def run(ctx):
@@ -389,11 +759,18 @@ def run(ctx):
                 "interpreter flag, system variables, launch environment with a canary variable); values drawn from a "
                 "grammar of literals, $NAME, ${NAME}, $$ and ill-formed dollars; the full grid {presence on "
                 "default/platform/both/neither} x {name kind} x {default/other platform} x {interpreter} is "
-                "enumerated with random contents, plus random cases; non-trivial = the selected name is not 'none' "
-                "and the launch environment has >= 2 variables; distinct by canonical JSON")
+                "enumerated with random contents (alternating primitive / replicated configuration), plus random "
+                "cases; non-trivial = the selected name is not 'none' and the launch environment has >= 2 "
+                "variables.  Sessions: one configuration object (primitive or replicated, 2-4 components with their "
+                "own environment name and interpreter flag, 4 environment names each on default/platform/both/neither, "
+                ">= 1 system variable) serving 2-12 calls (environmentForNode via graph / componentSpecification / "
+                "configuration, environmentWithName(name, expand, remove), defaultEnvironment), the caller rewriting "
+                "returned dictionaries in place (add / overwrite / clear / inject DEFAULTS) and asking again; "
+                "non-trivial = >= 2 different calls; distinct by canonical JSON")
     ctx.assumptions = ["environment values contain no %(variable)s references (FlowIR.fill_in of environment values "
                        "with workflow variables is outside the model)",
-                       "os.environ is replaced in-process for the duration of one call",
+                       "os.environ is replaced in-process for the duration of one call / one session (the launch "
+                       "environment does not change while a configuration object lives)",
                        "a declared variable whose value is the empty string may be absent from the result "
                        "(conf.py 1362-1367, as coded; the property speaks about the sources of variables)"]
     ctx.trusted.append("C17: string.Template / os.path.expandvars are modelled as tokenisers (Env.tokT/tokE) and "
@@ -406,12 +783,17 @@ def run(ctx):
     kinds = ["named", "named-case", "null", "empty", "none", "NONE", "environment", "Environment", "unknown"]
     for presence, nk, plat, interp in itertools.product(["default", "platform", "both", "neither"], kinds,
                                                         ["default", "plat"], [False, True]):
-        for _ in range(reps):
-            cases.append(gen_case(rng, presence, nk, plat, interp))
+        for r in range(reps):
+            cases.append(gen_case(rng, presence, nk, plat, interp, primitive=(r % 2 == 0)))
     for _ in range(400 if quick else 6000):
         cases.append(gen_case(rng))
     ctx.exhaustive = False
+    ctx.shrinker = shrink_case
     check_cases(ctx, cases)
+    sessions = [copy.deepcopy(c) for c in SESSION_CORPUS]
+    for _ in range(350 if quick else 5000):
+        sessions.append(gen_session(rng))
+    check_sessions(ctx, sessions)
     check_subst(ctx, [gen_subst_case(rng) for _ in range(3000 if quick else 40000)])
 
 
@@ -419,5 +801,7 @@ def replay(ctx, doc):
     case = doc.get("input") or doc["no_longer_checks"][-1]["input"]
     if "subst" in case:
         check_subst(ctx, [case["subst"]])
+    elif "session" in case:
+        check_sessions(ctx, [case])
     else:
         check_cases(ctx, [case])
